@@ -1,5 +1,9 @@
 package ring
 
+import (
+	"github.com/tuneinsight/lattigo/v6/utils"
+)
+
 // DivFloorByLastModulusNTT divides (floored) the polynomial by its last modulus.
 // The input must be in the NTT domain.
 // Output poly level must be equal or one less than input level.
@@ -108,20 +112,37 @@ func (r Ring) DivRoundByLastModulusNTT(p0, buff, p1 Poly) {
 	}
 }
 
-// DivRoundByLastModulus divides (rounded) the polynomial by its last modulus. The input must be in the NTT domain.
+// DivRoundByLastModulus divides (rounded) the polynomial by its last modulus.
+// The input must be in the coefficient domain (not in the NTT domain).
 // Output poly level must be equal or one less than input level.
+// p0 is left unchanged, unless p1 is p0 (in-place evaluation).
 func (r Ring) DivRoundByLastModulus(p0, p1 Poly) {
 
 	level := r.level
 
-	// Center by (p-1)/2
-	pHalf := (r.SubRings[level].Modulus - 1) >> 1
+	if level == 0 {
+		return
+	}
 
-	r.SubRings[level].AddScalar(p0.Coeffs[level], pHalf, p0.Coeffs[level])
+	sl := r.SubRings[level]
+
+	// Center by (p-1)/2
+	pHalf := (sl.Modulus - 1) >> 1
+
+	// x[-1] + pHalf mod q[-1] is staged in the last row of the output, which is evaluated last
+	// (in the last row of p0 if the evaluation is in place).
+	buff := p1.Coeffs[level-1]
+	if utils.Alias1D(p0.Coeffs[level-1], buff) {
+		buff = p0.Coeffs[level]
+	}
+
+	sl.AddScalar(p0.Coeffs[level], pHalf, buff)
 
 	for i, s := range r.SubRings[:level] {
-		s.AddScalarLazyThenNegTwoModulusLazy(p0.Coeffs[i], s.Modulus-BRedAdd(pHalf, s.Modulus, s.BRedConstant), p0.Coeffs[i])
-		s.AddLazyThenMulScalarMontgomery(p0.Coeffs[level], p0.Coeffs[i], r.RescaleConstants[level-1][i], p1.Coeffs[i])
+		// (-x[i] + (x[-1] + pHalf)) * -InvQ
+		s.SubThenMulScalarMontgomeryTwoModulus(buff, p0.Coeffs[i], r.RescaleConstants[level-1][i], p1.Coeffs[i])
+		// + (-pHalf) * -InvQ
+		s.AddScalar(p1.Coeffs[i], MRed(s.Modulus-BRedAdd(pHalf, s.Modulus, s.BRedConstant), r.RescaleConstants[level-1][i], s.Modulus, s.MRedConstant), p1.Coeffs[i])
 	}
 }
 
